@@ -17,8 +17,8 @@ EXPLANATION = (
     "discipline for bencode (raw slicing only inside the bounds-checked `slice`; every length-prefixed read goes through it; "
     "decode returns [nil original-data] on any failure; decode-all stops at the nil marker and hands back the remainder)."
 )
-DECIDES = "EDN escape/number/tag table agreement between writer and both readers; bencode bounds-checked reads and incomplete-message protocol"
-DECLINED = "JSON (delegates to Python's json module); value-level round trips"
+DECIDES = "EDN escape/number/tag table agreement between writer and both readers; bencode bounds-checked reads and incomplete-message protocol; JSON encoder/decoder type tables agree (every domain type has an encoder, every encoder image a decoder, collection codecs recurse with the options)"
+DECLINED = "the text level of JSON (Python's json module writes and parses it); value-level round trips"
 TRUSTED = ["FT-repr: repr(float) uses only digits . - + e (and inf/nan, written separately); repr(int) only digits and -", "bytes.index raises ValueError when the byte is absent"]
 ASSUMPTIONS = []
 TECHNIQUE = "table agreement and access-path discipline over .lpy s-expressions (own reader)"
@@ -206,6 +206,102 @@ def r5_edn_writer_visits_every_element(ctx):
     ctx.ob("C19.R5", f"{EDN}::write-seq::iterates (seq e) with doseq", EDN, ws.line, ok, "" if ok else "write-seq no longer walks every element of the collection")
 
 
+JSON = "src/basilisp/json.lpy"
+# the property's JSON domain -> the host type json.dumps receives for it
+JSON_DOMAIN = {
+    "python/str": "str", "python/int": "int", "python/float": "float", "python/bool": "bool", "nil": "nil",
+    "basilisp.lang.interfaces/IPersistentMap": None, "basilisp.lang.interfaces/IPersistentVector": None,
+}
+
+
+def _json_image(defs, fn_form):
+    """Host type produced by an encoder function: read off the last form of its body."""
+    if isinstance(fn_form, L.Sym):
+        d = defs.get(fn_form.val)
+        if d is None:
+            return None
+        ar = L.fn_arities(d)
+    else:
+        ar = L.fn_arities(fn_form) if L.head(fn_form) in ("fn", "fn*") else []
+    if not ar:
+        return None
+    params, body = ar[0]
+    last = body[-1]
+    if isinstance(last, L.Sym) and params.items and last.val == params.items[0].text():
+        return "same"
+    if L.head(last) in ("->>", "->"):
+        last = last.items[-1]
+    h = L.head(last) if isinstance(last, L.List) else (last.val if isinstance(last, L.Sym) else None)
+    if h in ("python/dict",):
+        return "dict"
+    if h in ("python/list",):
+        return "list"
+    if h in ("python/str", "str", "name", ".isoformat", "if-let"):
+        return "str"
+    if h is not None and h.startswith("python/"):
+        return h[len("python/"):]
+    if h is not None and defs.get(h) is not None:
+        return _json_image(defs, L.Sym(h, 0, 0))
+    return None
+
+
+@rule("C19.R6", floor=12)
+def r6_json_tables_agree(ctx):
+    """JSON: every type of the property's domain (maps, vectors, strings, ints, floats, booleans,
+    nil) has an encoder entry; the host type each encoder produces (dict / list / the scalar
+    itself / str) has a decoder entry; both collection encoders and both collection decoders
+    recurse into their members with the same options; the decoders build a map and a vector."""
+    forms = ctx.lisp(JSON)
+    defs = L.top_defs(forms)
+    enc, dec = {}, {}
+    for top in forms:
+        if L.head(top) == "extend" and len(top.items) >= 4:
+            typ, proto, impl = top.items[1], top.items[2], top.items[3]
+            if isinstance(impl, L.Map) and impl.pairs():
+                fn = impl.pairs()[0][1]
+                (enc if L.is_sym(proto, "JSONEncodeable") else dec if L.is_sym(proto, "JSONDecodeable") else {})[typ.text()] = (fn, top)
+        if L.head(top) == "extend-protocol" and len(top.items) > 2 and L.is_sym(top.items[1], "JSONDecodeable"):
+            cur = None
+            for it in top.items[2:]:
+                if isinstance(it, L.Sym):
+                    cur = it.text()
+                elif cur is not None:
+                    dec[cur] = (it, top)
+    if not enc or not dec:
+        raise AnalysisError("anchor vanished: json.lpy encoder/decoder tables")
+    dec_types = {k.replace("python/", "") for k in dec}
+    for typ in sorted(JSON_DOMAIN):
+        ok = typ in enc
+        ctx.ob("C19.R6", f"{JSON}::encoder for {typ}", JSON, enc[typ][1].line if ok else 0, ok, "" if ok else f"{typ} values can no longer be written as JSON")
+    for typ, (fn, top) in sorted(enc.items()):
+        img = _json_image(defs, fn)
+        if img is None:
+            raise AnalysisError(f"C19.R6: cannot tell what the JSON encoder for {typ} produces ({fn.text()[:60]})")
+        if img == "same":
+            img = JSON_DOMAIN.get(typ) or typ.replace("python/", "")
+        ok = img in dec_types or (img == "bool" and "int" in dec_types)  # bool is a subclass of int: protocol dispatch follows the MRO
+        ctx.ob("C19.R6", f"{JSON}::{typ} is written as {img}, which the decoder table handles", JSON, top.line, ok,
+               "" if ok else f"{typ} is encoded as a host {img}, for which JSONDecodeable has no entry: reading the written text back fails")
+    for name, what in (("seq-to-encodeable", "to-json-encodeable*"),):
+        d = defs.get(name)
+        if d is None:
+            raise AnalysisError(f"anchor vanished: json.lpy::{name}")
+        ok = any(L.head(f) == what or (isinstance(f, L.FnLit) and f.items and L.is_sym(f.items[0], what)) for f in L.walk(d)) and "opts" in d.text()
+        ctx.ob("C19.R6", f"{JSON}::{name} encodes every member with the same options", JSON, d.line, ok, "" if ok else "nested members are handed to json unencoded / without the caller's options")
+    for typ, builders, kind in (("python/dict", ("hash-map", "array-map", "zipmap", "{}"), "map"), ("python/list", ("vec", "vector", "mapv", "[]"), "vector")):
+        if typ not in dec:
+            continue
+        f, top = dec[typ]
+        calls = [x for x in L.walk(f) if x is not f and (L.head(x) == "from-decoded-json*" or (isinstance(x, L.FnLit) and x.items and L.is_sym(x.items[0], "from-decoded-json*")))]
+        rec = bool(calls) and all(len(x.items) == 3 and x.items[2].text() == "opts" for x in calls)
+        ctx.ob("C19.R6", f"{JSON}::decoder for {typ} recurses into its members", JSON, f.line, rec, "" if rec else f"members of a decoded {typ} stay host objects (or lose the options): nested arrays/objects do not read back as vectors/maps")
+        ok = any((isinstance(x, L.Sym) and x.val in builders) or (isinstance(x, (L.Map, L.Vec)) and x.text() in builders) for x in L.walk(f))
+        ctx.ob("C19.R6", f"{JSON}::decoder for {typ} builds a {kind}", JSON, f.line, ok, "" if ok else f"a decoded {typ} is not turned into a Basilisp {kind}")
+    mt = defs.get("map-to-encodeable")
+    ok = mt is not None and "(key-fn k)" in mt.text()
+    ctx.ob("C19.R6", f"{JSON}::map-to-encodeable applies key-fn to every key", JSON, getattr(mt, "line", 0), ok, "" if ok else "map keys are not coerced with key-fn: keyword keys cannot be written")
+
+
 def _ben_defs(ctx):
     return L.top_defs(ctx.lisp(BEN))
 
@@ -284,6 +380,25 @@ def r4_bencode_bounds_discipline(ctx):
 
 
 SELFTEST = [
+    {"name": "JSON array decoder stops recursing", "file": JSON, "expect": "C19.R6",
+     "old": "    (->> this (map #(from-decoded-json* % opts)) (vec))))", "new": "    (vec this)))"},
+    {"name": "JSON object decoder drops the options on the way down", "file": JSON, "expect": "C19.R6",
+     "old": "[(key-fn k) (from-decoded-json* v opts)]", "new": "[(key-fn k) (from-decoded-json* v {})]"},
+    {"name": "JSON vector encoder removed", "file": JSON, "expect": "C19.R6",
+     "old": "(extend basilisp.lang.interfaces/IPersistentVector JSONEncodeable {:to-json-encodeable* seq-to-encodeable})\n", "new": ""},
+    {"name": "JSON sets written as host tuples nobody decodes", "file": JSON, "expect": "C19.R6",
+     "old": "(defn ^:private seq-to-encodeable\n  [o opts]\n  (->> o\n       (map #(to-json-encodeable* % opts))\n       (python/list)))",
+     "new": "(defn ^:private seq-to-encodeable\n  [o opts]\n  (->> o\n       (map #(to-json-encodeable* % opts))\n       (python/list)))\n\n(defn ^:private set-to-encodeable\n  [o opts]\n  (python/frozenset o))",
+     "edits": [
+         {"file": JSON, "old": "(defn ^:private seq-to-encodeable\n  [o opts]\n  (->> o\n       (map #(to-json-encodeable* % opts))\n       (python/list)))",
+          "new": "(defn ^:private seq-to-encodeable\n  [o opts]\n  (->> o\n       (map #(to-json-encodeable* % opts))\n       (python/list)))\n\n(defn ^:private set-to-encodeable\n  [o opts]\n  (python/frozenset o))"},
+         {"file": JSON, "old": "(extend basilisp.lang.interfaces/IPersistentSet    JSONEncodeable {:to-json-encodeable* seq-to-encodeable})", "new": "(extend basilisp.lang.interfaces/IPersistentSet    JSONEncodeable {:to-json-encodeable* set-to-encodeable})"},
+     ]},
+    {"name": "twin: JSON bool decoder left to the int entry", "file": JSON, "expect": None,
+     "old": "(extend python/bool  JSONDecodeable {:from-decoded-json* decode-scalar})\n", "new": ""},
+    {"name": "twin: JSON object decoder builds with into {}", "file": JSON, "expect": None,
+     "old": "    (->> (.items this)\n         (mapcat (fn [[k v]] [(key-fn k) (from-decoded-json* v opts)]))\n         (apply hash-map)))",
+     "new": "    (->> (.items this)\n         (map (fn [[k v]] [(key-fn k) (from-decoded-json* v opts)]))\n         (into {})))"},
     {"name": "EDN reader table loses \\f", "file": EDN, "expect": "C19.R1",
      "old": "   \"f\"  \"\\f\"\n", "new": ""},
     {"name": "EDN writer emits an escape nobody reads", "file": EDN, "expect": "C19.R1",
